@@ -43,10 +43,25 @@ package shutterservice
 //@   requires p != nil
 //@   ensures ret0 == nil <==> validLP(p)
 //@
+//@ // dynamic reference: head word at (Offset-4)*32 holds the byte offset o of the value, the word at o its
+//@ // length l, the l bytes after o+32 are the value; it resolves iff both words and the length lie inside
+//@ // the data
+//@ pred dynHead(r) := (r.Offset - 4) * 32
+//@ pred dynOff(r, log) := be_int(subcontent(log.Data, dynHead(r), dynHead(r) + 32))
+//@ pred dynLen(r, log) := be_int(subcontent(log.Data, dynOff(r, log), dynOff(r, log) + 32))
+//@ pred dynResolves(r, log) := dynHead(r) + 32 <= len(log.Data) && dynOff(r, log) + 32 <= len(log.Data) && dynLen(r, log) <= len(log.Data)
+//@ // documented semantics (docs/event.md): topic reference -> that topic or nil; static data reference ->
+//@ // the 32-byte word at (Offset-4)*32, zero-padded on the right where the data ends
 //@ func (*LogValueRef).GetValue
 //@   requires r != nil && log != nil
 //@   requires validRef(r)
 //@   opt bounded-alloc = 32 + len(log.Data)
+//@   opt content = precise
+//@   ensures (r.Offset < 4 && len(log.Topics) <= r.Offset) ==> ret0 == nil
+//@   ensures (r.Offset < 4 && len(log.Topics) > r.Offset) ==> (len(ret0) == 32 && (forall i :: 0 <= i && i < 32 ==> ret0[i] == log.Topics[r.Offset][i]))
+//@   ensures (r.Dynamic && !dynResolves(r, log)) ==> ret0 == nil
+//@   ensures (r.Dynamic && dynResolves(r, log)) ==> (len(ret0) == dynLen(r, log) && (forall i :: 0 <= i && i < dynLen(r, log) ==> ret0[i] == ite(dynOff(r, log) + 32 + i < len(log.Data), log.Data[dynOff(r, log) + 32 + i], 0)))
+//@   ensures (r.Offset >= 4 && !r.Dynamic) ==> (len(ret0) == 32 && (forall i :: 0 <= i && i < 32 ==> ret0[i] == ite((r.Offset - 4) * 32 + i < len(log.Data), log.Data[(r.Offset - 4) * 32 + i], 0)))
 //@
 //@ func (*ValuePredicate).Match
 //@   requires p != nil && validPred(p)
